@@ -677,8 +677,11 @@ class Interp(Engine):
         # constrains its own carrier (no `returns`, no `modifies`) is inlined at call sites (always sound)
         if c is not None and not c.pure_inline and (c.returns is not None or c.modifies or c.trusted or c.options.get("modular")):
             return self.modular_call(c, func, args, kwargs)
+        depth = sum(1 for nd in getattr(self, "_active_nodes", ()) if nd is func.node)
+        if depth and not self.spec_mode and getattr(self, "recursion_limit_model", False):
+            self.reentrant_call(func, depth)  # contract option recursion_limit_model=True: recursion whose depth no contract bounds may raise RecursionError
         if len(self.inline_stack) > 40:
-            raise Unsupported(f"inline depth exceeded at {func.key}")
+            raise Unsupported(f"inline depth exceeded at {func.key}" + (" (recursion on data of symbolic size: the recursive function needs a modular contract with a measure)" if depth else ""))
         fr = Frame(parent=func.frame, globs=func.globs, func=func)
         self.bind_params(func, args, kwargs, fr)
         self.inline_stack.append(func.key)
@@ -696,7 +699,33 @@ class Interp(Engine):
             c.ghost_exit(self, v, None)
         return res
 
+    def reentrant_call(self, func, depth):
+        """A call that RE-ENTERS a function which is already active (direct or mutual recursion) and whose body is inlined, i.e. no
+        contract bounds how deep it goes.  How much interpreter stack is left is an unknown of the environment (the caller's own
+        depth, sys.setrecursionlimit): a ghost integer `recursion_budget` >= 0, one per path.  The call that would make the
+        function active for the (d+1)-th time raises RecursionError iff d > budget -- at the call, i.e. after exactly the
+        effects of the calls before it, which is how CPython raises it.  Calls that do not re-enter anything are bounded by the
+        static call depth and never raise it."""
+        if getattr(self, "pure_mode", 0):
+            raise Unsupported(f"recursive call of {func.key.split(':')[-1]} inside a comprehension over a sequence of symbolic length: the recursive function needs a modular contract with a measure")
+        b = self.ghost.get("recursion-budget")
+        if b is None:
+            b = self.ghost["recursion-budget"] = fresh("int", "recursion_budget")
+            self.assume(b.z >= 0)
+            self.assumptions.add("recursion model: a call that re-enters an active function with no contract bounding its depth raises RecursionError iff its "
+                                 "re-entrance depth exceeds an unknown stack budget >= 0 (one ghost integer per path)")
+        if not self.branch(self.sbool(b.z >= depth)):
+            raise ProgExc(RecursionError, f"maximum recursion depth exceeded (re-entrance depth {depth} of {func.key.split(':')[-1]})")
+
     def run_body(self, func, fr):
+        act = self.__dict__.setdefault("_active_nodes", [])
+        act.append(func.node)
+        try:
+            return self._run_body(func, fr)
+        finally:
+            act.pop()
+
+    def _run_body(self, func, fr):
         node = func.node
         if isinstance(node, ast.Lambda):
             return self.ev(node.body, fr)
@@ -841,6 +870,10 @@ class Interp(Engine):
                 # numpy in-place update of the stored array (aliases see it)
                 self.models.inplace_binop(self, s.op, cur, self.ev(s.value, fr))
                 return
+            if isinstance(cur, DictListRef) and isinstance(s.op, ast.Add):
+                # `d[k] += [x, ...]` on the int list stored in a symbolic dict: list.__iadd__ is an in-place extend, the entry stays the same object
+                self.models.LIST_METHODS["extend"](self, cur, [self.ev(s.value, fr)], {})
+                return
             self.models.setitem(self, base, idx, self.binop(s.op, cur, self.ev(s.value, fr)))
         elif isinstance(t, ast.Attribute):
             base = self.ev(t.value, fr)
@@ -945,7 +978,22 @@ class Interp(Engine):
                 raise ProgExc(type(e), str(e))
 
     def ex_ImportFrom(self, s, fr):
-        raise Unsupported("from-import inside a carrier")
+        """`from a.b import c [as d]` inside a function: binds the real object (calls into it still need a model / repository source)"""
+        import importlib
+
+        if s.level:
+            raise Unsupported("relative from-import inside a carrier")
+        try:
+            mod = importlib.import_module(s.module)
+            for al in s.names:
+                if al.name == "*":
+                    raise Unsupported("from-import * inside a carrier")
+                try:
+                    fr.vars[al.asname or al.name] = getattr(mod, al.name)
+                except AttributeError:
+                    fr.vars[al.asname or al.name] = importlib.import_module(s.module + "." + al.name)
+        except ImportError as e:
+            raise ProgExc(type(e), str(e))
 
     def ex_Delete(self, s, fr):
         for t in s.targets:
